@@ -439,6 +439,44 @@ type c13Atom struct {
 	trigger bool
 }
 
+// c13MoreAtoms are the letters that are not part of the subset enumeration; they
+// are crossed with every close kind (and channel types) on their own, next to the
+// trigger HTLC where the close kind needs one.
+//
+// Race letters: the resolver that acts for us meets a spend by the other party.
+// Exit-hop letters: we are the final hop and the invoice registry decides.
+// Trigger letters other than oN: a received HTLC whose preimage we have (witness
+// cache / invoice) makes us go to chain IncomingBroadcastDelta before it expires
+// (we publish during block 107, our commitment confirms in 108).
+var c13MoreAtoms = []c13Atom{
+	{"oR", c13HTLC{Exp: 110, Pre: "claim", At: 111}, true},                      // offered, expired (timeout resolver, our timeout spend is out), the remote party's preimage spend confirms first
+	{"oQ", c13HTLC{Exp: 110, Pre: "claim-direct", At: 111}, true},               // like oR, but the remote party's spend is never relayed (full-node backends: our own timeout spend is what the mempool shows)
+	{"oM", c13HTLC{On: "remote", Exp: 110}, true},                               // offered, on the remote party's commitments but not (yet) on ours, about to expire: makes us go to chain although our own commitment carries nothing
+	{"iT", c13HTLC{In: true, Exp: 110, Pre: "late-lost", At: 108}, false},       // received, preimage learned in 108, our claim does not confirm, the remote party times the HTLC out in 111
+	{"iG", c13HTLC{In: true, Exp: 112, Pre: "known"}, true},                     // received, preimage known, about to expire: makes us go to chain
+	{"xS", c13HTLC{In: true, Exp: 150, Inv: "settle"}, false},                   // exit hop, open invoice: settles when notified
+	{"xG", c13HTLC{In: true, Exp: 112, Inv: "settle"}, true},                    // exit hop, open invoice, about to expire: makes us go to chain
+	{"xH", c13HTLC{In: true, Exp: 150, Inv: "hodl-settle", At: 108}, false},     // exit hop, hold invoice settled by the user in 108
+	{"xX", c13HTLC{In: true, Exp: 150, Inv: "hodl-cancel", At: 108}, false},     // exit hop, hold invoice canceled by the user in 108
+	{"xC", c13HTLC{In: true, Exp: 150, Inv: "canceled"}, false},                 // exit hop, invoice already canceled
+	{"xV", c13HTLC{In: true, Exp: 150, Inv: "settle", Pre: "underpaid"}, false}, // exit hop, the onion asks for more than the HTLC carries
+}
+
+func c13AtomByCode(code string) c13Atom {
+	for _, l := range [][]c13Atom{c13Atoms, c13MoreAtoms} {
+		for _, a := range l {
+			if a.code == code {
+				return a
+			}
+		}
+	}
+	panic("c13: unknown letter " + code)
+}
+
+// bcastAt is the block during which a trigger letter makes us publish our
+// commitment (expiry minus the broadcast delta of 5).
+func (a c13Atom) bcastAt() int32 { return int32(a.h.Exp) - 5 }
+
 var c13Atoms = []c13Atom{
 	{"oN", c13HTLC{Exp: 110}, true},                                  // offered, about to expire: makes us go to chain; times out
 	{"oF", c13HTLC{Exp: 114}, false},                                 // offered, contested until 113, then times out
@@ -548,14 +586,22 @@ func c13Scenarios(thorough bool) []c13Planned {
 		}
 		out = append(out, c13Planned{scn: s, depth: d})
 	}
+	userClose := int32(0) // set while the by-user family is built
 	build := func(closeKind string, bcastFirst bool, set []c13Atom, bare bool) (c13Scn, bool) {
-		s := c13Scn{Close: closeKind, CloseAt: 102, ToLocal: !bare, Anchor: !bare, HasPending: closeKind == "pending"}
+		s := c13Scn{Close: closeKind, CloseAt: 102, ToLocal: !bare, Anchor: !bare, HasPending: closeKind == "pending", NoUpstream: bare, UserClose: userClose}
 		trig := false
+		bcast := int32(1 << 30)
+		if userClose > 0 {
+			trig, bcast = true, userClose
+		}
 		var codes []string
 		for _, a := range set {
 			s.HTLCs = append(s.HTLCs, a.h)
 			codes = append(codes, a.code)
 			trig = trig || a.trigger
+			if a.trigger && a.bcastAt() < bcast {
+				bcast = a.bcastAt()
+			}
 			if a.h.On == "pending" {
 				s.HasPending = true
 			}
@@ -564,9 +610,13 @@ func c13Scenarios(thorough bool) []c13Planned {
 			return s, false
 		}
 		s.Name = closeKind
+		if userClose > 0 {
+			s.Name += "-by-user"
+		}
 		if bcastFirst {
+			// The foreign commitment confirms in the block after our broadcast.
 			s.Name += "-after-our-broadcast"
-			s.CloseAt = 106
+			s.CloseAt = bcast + 1
 		}
 		if closeKind == "breach" {
 			s.JusticeAt = s.CloseAt + 4
@@ -705,11 +755,149 @@ func c13Scenarios(thorough bool) []c13Planned {
 		}
 	}
 	// Two HTLCs of the same kind.
-	two := c13Scn{Name: "local/oN+oN'", Close: "local", ToLocal: true, Anchor: true, HTLCs: []c13HTLC{{Exp: 110}, {Exp: 111}}}
+	two := c13Scn{Name: "local/oN+oN'", Close: "local", ToLocal: true, Anchor: true, NoUpstream: true, HTLCs: []c13HTLC{{Exp: 110}, {Exp: 111}}}
 	add(two, 2)
 	two.Name, two.Layout = "local/oN+oN'/slots=10", []int{1, 0}
 	two.HTLCs = append([]c13HTLC{}, two.HTLCs...)
 	add(two, 2)
+
+	// ---- families added by the axis audit (see AXES.md) ----------------------
+	allTypes := []string{"", "lease-init", "lease-noninit", "taproot", "taproot-final", "legacy"}
+	someTypes := []string{"", "taproot", "legacy"}
+	type kindT struct {
+		kind  string
+		first bool
+	}
+	kinds := []kindT{{"local", false}, {"remote", false}, {"pending", false}, {"remote", true}, {"pending", true}}
+	// typedAdd builds one scenario on channel type ct; the letter stands alone where
+	// the close kind allows it and next to the trigger oN where it needs one.
+	typedAdd := func(ct string, k kindT, codes []string, mempool bool, depthKey int, reversed bool) {
+		var set []c13Atom
+		hasTrig := false
+		for _, c := range codes {
+			a := c13AtomByCode(c)
+			set = append(set, a)
+			hasTrig = hasTrig || a.trigger
+		}
+		if (k.kind == "local" || k.first) && !hasTrig && userClose == 0 {
+			set = append([]c13Atom{trigger}, set...)
+		}
+		s, ok := build(k.kind, k.first, set, false)
+		if !ok {
+			return
+		}
+		if ct != "" {
+			s.Chan = ct
+			s.Name = ct + ":" + s.Name
+		}
+		if ct == "legacy" {
+			s.Anchor = false
+		}
+		if mempool {
+			s.Mempool = true
+			s.Name += "/mempool"
+		}
+		if ct != "" && depthKey == 2 {
+			// Thorough tier: pairs of stops on the anchors type, every single stop
+			// on the other channel types.
+			depthKey = 99
+		}
+		add(s, depthKey)
+		if reversed && len(set) >= 2 {
+			rev := c13Perms(len(set), false)[0]
+			v := s
+			v.HTLCs = append([]c13HTLC{}, s.HTLCs...)
+			v.Layout = rev
+			v.Name += "/slots=" + strings.Trim(strings.ReplaceAll(fmt.Sprint(rev), " ", ""), "[]")
+			add(v, depthKey)
+		}
+	}
+	// depth keys: 99 = every single stop; 2 = every pair of stops (thorough tier).
+	single, deep := 99, 99
+	if thorough {
+		deep = 2
+	}
+	// (1) Race letters and the received-HTLC trigger: every channel type x every
+	// close kind.
+	for _, ct := range allTypes {
+		for _, k := range kinds {
+			for _, c := range []string{"oR", "oM", "iT", "iG"} {
+				if ct == "legacy" && c == "iT" && k.kind == "local" {
+					// lnd's pre-anchor success path hands the output to the utxo
+					// nursery and waits for the second-level output only: if the
+					// remote party wins the race even the uninterrupted run never
+					// finishes (see AXES.md); nothing to compare restarts with.
+					continue
+				}
+				typedAdd(ct, k, []string{c}, false, deep, true)
+			}
+		}
+	}
+	// (2) Exit-hop letters: we are the final hop, the invoice registry decides.
+	exitTypes := someTypes
+	if thorough {
+		exitTypes = allTypes
+	}
+	for _, ct := range exitTypes {
+		for _, k := range kinds {
+			for _, c := range []string{"xS", "xG", "xH", "xX", "xC", "xV"} {
+				typedAdd(ct, k, []string{c}, false, deep, thorough)
+			}
+		}
+	}
+	// (3) Full-node backend (mempool watcher): every offered letter that reaches
+	// the timeout resolver, alone and next to each other.
+	memTypes := someTypes
+	if thorough {
+		memTypes = allTypes
+	}
+	for _, ct := range memTypes {
+		for _, k := range kinds {
+			for _, codes := range [][]string{{"oN"}, {"oF"}, {"oR"}, {"oQ"}, {"oC"}, {"oR", "oF"}} {
+				if len(codes) == 2 && !(thorough || ct == "") {
+					continue
+				}
+				typedAdd(ct, k, codes, true, single, false)
+			}
+		}
+	}
+	// (4) The user asks for the force close (userTrigger) in block 103: our
+	// commitment goes to chain without any HTLC forcing it, so every letter meets
+	// it alone, including none at all; and a foreign commitment that confirms
+	// instead.
+	userClose = 103
+	userLetters := []string{"", "oF", "iK"}
+	for _, ct := range allTypes {
+		letters := userLetters
+		if ct == "" || thorough {
+			letters = []string{""}
+			for _, a := range c13Atoms {
+				letters = append(letters, a.code)
+			}
+			for _, a := range c13MoreAtoms {
+				letters = append(letters, a.code)
+			}
+		}
+		for _, c := range letters {
+			var codes []string
+			if c != "" {
+				codes = []string{c}
+			}
+			if ct == "legacy" && c == "iT" {
+				continue // see (1)
+			}
+			typedAdd(ct, kindT{"local", false}, codes, false, deep, false)
+			if c == "" || c == "oF" || c == "iK" {
+				typedAdd(ct, kindT{"remote", true}, codes, false, single, false)
+				typedAdd(ct, kindT{"pending", true}, codes, false, single, false)
+			}
+		}
+	}
+	// ... and without a balance output, anchors or HTLCs: nothing at all to resolve.
+	if s, ok := build("local", false, nil, true); ok {
+		add(s, deep)
+	}
+	userClose = 0
 	return out
 }
 
@@ -1334,11 +1522,12 @@ func TestC13(t *testing.T) {
 		"evaluations":         evals,
 		"distinct_nontrivial": len(distinct),
 		"rule": "an evaluation = one execution of the real started ChannelArbitrator + resolvers on the bolt arbitrator log (crashdb-wrapped bbolt) through a whole close scenario, with 0, 1 or 2 stops; " +
-			"scenarios = channel type x close type x {foreign close first, we broadcast first} x every subset (up to a size) of a 9-letter HTLC alphabet x output-slot permutations of the non-confirmed commitments; stops are enumerated exhaustively: every k in [1,W] (W = committed write transactions of the uninterrupted run, see scenarios.*.W) and, for the scenarios of depth 2 / 3 (scenarios_by_depth), every (k1,k2[,k3]) with k_{i+1} in [1, commits of the resumed run]; " +
+			"scenarios = channel type x close type x {foreign close first, we broadcast first} x every subset (up to a size) of a 9-letter HTLC alphabet x output-slot permutations of the non-confirmed commitments, plus (scenarios_by_family) 11 more letters - races the other party wins, a received HTLC that makes us go to chain, exit-hop HTLCs decided by the invoice registry - crossed with every close kind on their own, a full-node backend with a mempool watcher, and force closes requested by the user; stops are enumerated exhaustively: every k in [1,W] (W = committed write transactions of the uninterrupted run, see scenarios.*.W) and, for the scenarios of depth 2 / 3 (scenarios_by_depth), every (k1,k2[,k3]) with k_{i+1} in [1, commits of the resumed run]; " +
 			"distinct_nontrivial = distinct (scenario, for each stop: the write it follows, arbitrator state on disk, restart mode open/pending-close, unresolved contracts on disk with their stage) among executions in which at least one restart found the channel not yet fully closed",
 		"samples":                    samples.List(),
 		"exhaustive":                 exhaustive,
 		"scenarios":                  wInfo,
+		"scenarios_by_family":        c13Families(names),
 		"scenario_names":             names,
 		"scenarios_by_depth":         depthScn,
 		"write_sequences":            writeSamples,
@@ -1376,7 +1565,8 @@ func TestC13(t *testing.T) {
 		"a committed kvdb write transaction is atomic and durable (bbolt's contract); the stop instants are exactly the returns of committed write transactions of channel.db (arbitrator log and the channel/switch/witness-cache writes made by the arbitrator's callbacks)",
 		"goroutine interleavings inside one stimulus are those the Go scheduler picks; the enumerated nondeterminism is the stop point, with every handler run to quiescence (synctest.Wait) between two stimuli",
 		"chain backend model: spends are notified in the block that confirms them and re-notified on registration after a restart; the sweeper forgets its inputs on a stop, publishes one deterministic transaction per mature input one block after it is offered, and answers an already-spent input with the spending transaction; the close event is re-delivered after a restart while the channel is not marked closed",
-		"channel types: anchors/zero-fee, script-enforced lease (initiator and non-initiator, thaw height 125), simple taproot, taproot final, legacy tweakless (second-level HTLCs of our own commitment through a modelled, durable utxo nursery); scripts, keys, signatures and control blocks are well-formed placeholders (nothing is script-verified; a success spend must carry the HTLC's real preimage); a configured mempool watcher, exit-hop (invoice) HTLCs and aux/custom channels are not exercised",
+		"channel types: anchors/zero-fee, script-enforced lease (initiator and non-initiator, thaw height 125), simple taproot, taproot final, legacy tweakless (second-level HTLCs of our own commitment through a modelled, durable utxo nursery); scripts, keys, signatures and control blocks are well-formed placeholders (nothing is script-verified; a success spend must carry the HTLC's real preimage); aux/custom channels, blinded routes and our own payments (IsForwardedHTLC=false, grace period) are not exercised",
+		"chain backend: SPV (no mempool watcher) except in the */mempool scenarios, where subscriptions are told about transactions entering the mempool after the subscription (never about earlier ones, never again after a restart); a spend registration only finds spends at or above its height hint; invoice registry: durable per-HTLC state (accepted/settled/canceled, one write transaction per change), replays answered like lnd's registry; a user who asks for a force close repeats the request after a restart while the arbitrator is still in StateDefault; a received HTLC of a pre-anchor channel whose claim loses the race is not enumerated for our own commitment (lnd's legacy success path never finishes there, restart or not)",
 		"output indexes are assigned per commitment (the non-confirmed commitments carry the HTLCs in permuted slots); every dependency is keyed strictly and a query with a key of no HTLC of the scenario is a violation",
 	)
 	if len(brokenNotes) > 0 && evals == 0 {
@@ -1407,6 +1597,39 @@ var c13OutlivingSinks = map[string]bool{
 	"AddPreimages": true, "MarkChannelClosed": true, "MarkCommitmentBroadcasted": true, "ForceCloseChan": true,
 	"NotifyChannelResolved": true, "ChainArbitrator.ResolveContract": true, "SweepInput": true, "UpdateParams": true,
 	"NotifyFinalHtlcEvent": true,
+}
+
+// c13Families counts the scenarios per family (read off the scenario name).
+func c13Families(names []string) map[string]int {
+	out := map[string]int{}
+	for _, n := range names {
+		letters := n
+		if i := strings.Index(letters, "/"); i >= 0 {
+			letters = letters[i:]
+		}
+		fam := "subsets of the 9-letter alphabet (anchors)"
+		switch {
+		case strings.Contains(n, "-by-user"):
+			fam = "force close requested by the user"
+		case strings.Contains(n, "/mempool"):
+			fam = "full-node backend (mempool watcher)"
+		case strings.Contains(letters, "x"):
+			fam = "exit-hop letters (invoice registry)"
+		case strings.Contains(letters, "oR") || strings.Contains(letters, "oQ") || strings.Contains(letters, "oM") || strings.Contains(letters, "iT") || strings.Contains(letters, "iG"):
+			fam = "race letters and received-HTLC trigger"
+		case strings.Contains(n, ":"):
+			fam = "other channel types x 9-letter alphabet"
+		case strings.HasSuffix(n, "/bare"):
+			fam = "no balance output, no anchors"
+		}
+		ct := "anchors"
+		if i := strings.Index(n, ":"); i >= 0 {
+			ct = n[:i]
+		}
+		out[fam]++
+		out[fam+" | "+ct]++
+	}
+	return out
 }
 
 func c13Tail(s string, n int) string {
